@@ -444,3 +444,32 @@ Proof.
   - reflexivity.
   - unfold run, consistent, listed. cbn. rewrite !sumv_nil. unfold fzero. num_unfold. lra.
 Qed.
+
+(* ------------------------------------------------------------------ C16 for the reported average: ranges and signs survive averaging *)
+Lemma mean_of_bounds (f : grpR -> R) (s : stateR) srcs lo hi :
+  (forall x, In x (map fst srcs) -> lo <= f (s x) <= hi) ->
+  lo * INR (length srcs) <= mean_of f s srcs <= hi * INR (length srcs).
+Proof.
+  induction srcs as [|[a fa] t IH]; intros H.
+  - rewrite mean_of_nil. cbn [length INR]. lra.
+  - rewrite mean_of_cons. change (length ((a, fa) :: t)) with (S (length t)). rewrite S_INR.
+    assert (Ha := H a (or_introl eq_refl)).
+    assert (Ht : lo * INR (length t) <= mean_of f s t <= hi * INR (length t)) by (apply IH; intros x Hx; apply H; right; exact Hx).
+    cbn [fst] in Ha. lra.
+Qed.
+Theorem average_in_range (f : grpR -> R) (s : stateR) dst src0 (srcs : list (nat * list nat)) lo hi :
+  ~ In dst (map fst srcs) -> srcs <> [] ->
+  (forall x, In x (map fst srcs) -> lo <= f (s x) <= hi) ->
+  let n := INR (length srcs) in let sc := step s (OClone dst src0) in
+  lo <= mean_of f sc srcs / n <= hi.
+Proof.
+  intros Hd Hne H n sc.
+  assert (Hn : 0 < n) by (unfold n; apply lt_0_INR; destruct srcs; [congruence | cbn; apply Nat.lt_0_succ]).
+  assert (Hb : lo * n <= mean_of f sc srcs <= hi * n).
+  { apply mean_of_bounds. intros x Hx. assert (E : sc x = s x).
+    { unfold sc. cbn [step]. apply upd_other. intros ->. apply Hd. exact Hx. }
+    rewrite E. apply H. exact Hx. }
+  split.
+  - apply Rmult_le_reg_r with n; [exact Hn|]. unfold Rdiv. rewrite Rmult_assoc, Rinv_l by lra. lra.
+  - apply Rmult_le_reg_r with n; [exact Hn|]. unfold Rdiv. rewrite Rmult_assoc, Rinv_l by lra. lra.
+Qed.
